@@ -115,7 +115,9 @@ fn walk(ex: &mut Exec, edges: &BTreeMap<u64, Vec<(u64, Value)>>, node: u64, dept
             if !agree {
                 why = Some(format!("result: expected {} got {}", exp, if ok { "ok".to_string() } else { ev["err"].to_string() }));
             } else if let Some(obs) = a.get("obs") {
-                why = subset_mismatch(obs, &Value::Object(ex.last.clone()), "st");
+                let mut target = ex.last.clone();
+                target.insert("out".into(), ev["out"].clone());
+                why = subset_mismatch(obs, &Value::Object(target), "st");
             }
             if let Some(wy) = why {
                 sum.drift += 1;
